@@ -87,6 +87,20 @@ Definition elf_string_table (m : mem) (s : elf_section) : res N :=
 Definition elf_name_addr (p : profile) (m : mem) (s : elf_section) : res N :=
   st <- elf_string_table m s ;; ni <- elf_name_index m s ;; Val ((st + ni) mod pow2_64).
 
+(* ---- ELF section names: the one documented read outside the region ----------------------------------
+   ext: the external memory the string table lives in, absolute addresses [m_base, m_base + len).
+   name(): strlen from string_table() + name_index, then from_utf8 of the bytes before the NUL. *)
+Definition ext_cstr (ext : mem) (a : N) : res (list byte) :=
+  if (m_base ext <=? a) && (a <? m_base ext + len (m_bytes ext)) then
+    let tl := slice (m_bytes ext) (a - m_base ext) (len (m_bytes ext) - (a - m_base ext)) in
+    match index_nul tl with
+    | Some i => Val (slice tl 0 i)
+    | None => Fault FOob        (* strlen runs off the external mapping *)
+    end
+  else Fault FOob.
+Definition elf_name (p : profile) (m ext : mem) (s : elf_section) : res (list byte) :=
+  a <- elf_name_addr p m s ;; bs <- ext_cstr ext a ;; if utf8_valid bs then Val bs else Err EUtf8.
+
 Definition is_unused (t : elftype) : bool := match t with EUnused => true | _ => false end.
 
 Fixpoint elf_next (fuel : nat) (p : profile) (m : mem) (it : elf_iter) : res (option elf_section * elf_iter) :=
